@@ -33,7 +33,19 @@ fn type_info_stub(
 struct Words<const N: usize>([u64; N]);
 unsafe impl<const N: usize> Trace for Words<N> {}
 
+/// payload of three bytes: a block whose size is not a multiple of the word size
+struct Odd([u8; 3]);
+unsafe impl Trace for Odd {}
+
 fn alloc_step<const N: usize>(canary: bool) {
+    alloc_step_with(Move(Words::<N>([7; N])), 8 * N, canary)
+}
+
+fn alloc_step_with<D>(def: D, payload: usize, canary: bool)
+where
+    D: DataDef,
+    D::Value: Sized + Any,
+{
     let mut gc = ManuallyDrop::new(Gc::new(Generation::default(), usize::MAX));
     let allocated: usize = kani::any();
     let limit: usize = kani::any();
@@ -42,13 +54,17 @@ fn alloc_step<const N: usize>(canary: bool) {
     kani::assume(allocated <= limit);
     gc.allocated_memory = allocated;
     gc.memory_limit = limit;
-    let r = ManuallyDrop::new(gc.alloc_owned(Move(Words::<N>([7; N]))).map(|_p| ()));
+    let r = ManuallyDrop::new(gc.alloc_owned(def).map(|_p| ()));
     match &*r {
         Ok(_) => {
             assert!(gc.allocated_memory > allocated, "an allocation is accounted");
-            assert!(gc.allocated_memory - allocated >= 8 * N, "at least the payload is accounted");
+            assert!(gc.allocated_memory - allocated >= payload, "at least the payload is accounted");
             assert!(gc.allocated_memory <= gc.memory_limit, "accounted memory never exceeds the limit");
             assert!(gc.values.is_some(), "object linked into the heap list");
+            // what `alloc` adds is exactly what `free` will subtract for this block (`AllocPtr::size`
+            // of the new list head): otherwise accounting drifts and never returns to its baseline
+            let block = gc.values.as_ref().map(|p| p.size());
+            assert!(block == Some(gc.allocated_memory - allocated), "alloc accounts exactly the block `free` releases");
             kani::cover!(true, "allocation admitted");
         }
         Err(Error::OutOfMemory { limit: l, needed }) => {
@@ -82,6 +98,15 @@ fn c07_alloc_limit_8() {
 #[kani::stub(Gc::get_type_info, type_info_stub)]
 fn c07_alloc_limit_0() {
     alloc_step::<0>(false);
+}
+
+//@ tier=quick cap=900 funcs=Gc::alloc_owned,Gc::alloc_ignore_limit_,AllocPtr::new,AllocPtr::size bound=payload_3_bytes_(not_a_multiple_of_the_word_size);any_usize_allocated_le_limit
+#[kani::proof]
+#[kani::unwind(5)]
+#[kani::stub(rstd::fmt::format, fmt_stub)]
+#[kani::stub(Gc::get_type_info, type_info_stub)]
+fn c07_alloc_limit_3() {
+    alloc_step_with(Move(Odd([7; 3])), 3, false);
 }
 
 //@ tier=thorough cap=1800 funcs=Gc::alloc_owned,Gc::alloc_ignore_limit_,AllocPtr::new bound=payload_40_bytes;any_usize_allocated_le_limit
